@@ -60,3 +60,10 @@ add("C07",
     "Trusted: CrossHair/z3; reference release function in harness/c07.py; regexes from a fixed list; unsigned/unencrypted responses read at object level.",
     "DESIGN.md 3/C07")
 NOT_APPLICABLE.pop("C07", None)
+
+add("C10",
+    "CrossHair symbolic execution of Request._loads/_verify/issue_instant_ok with Destination as a symbolic string and symbolic clock, and of Server.parse_authn_request -> Entity._parse_request -> correctly_signed_message over signature x verdict x want_authn_requests_signed x Destination x binding",
+    "Acceptance of a request implies Version 2.0, Destination absent or one of the receiver's endpoints (every string <= 40 chars; 0-2 endpoints), IssueInstant within a day plus allowance, schema validity; a present signature must verify on (request element, its ID), unsigned requests are refused when signatures are wanted; wrong-root, garbled and truncated encodings are refused.",
+    "Trusted: CrossHair/z3; xmlsec1 by contract (stub verdicts); parsed-object hand-over for the field checks; clock model. only_valid_cert option outside the claim.",
+    "DESIGN.md 3/C10")
+NOT_APPLICABLE.pop("C10", None)
